@@ -161,6 +161,12 @@ impl<'a> SsaAnalysisState<'a> {
         self.context.push_scope();
         for m in toplevel.members_iter() {
           let id = &m.name;
+          // The generated constructor of a struct class is a member named `init`.
+          if let Some(TypeDefinition::Struct { loc, .. }) = type_definition
+            && id.name == PStr::INIT
+          {
+            self.error_set.report_name_already_bound_error(id.loc, id.name, *loc);
+          }
           self.define_id(id.name, id.loc);
         }
         self.context.pop_scope();
